@@ -646,6 +646,8 @@ type gramResult struct {
 	Script    *Script
 	PairSigs  map[string][]string // rule signature -> canonical path renderings
 	SlotTerms map[string]map[string]string // "Kind.Slot" -> terminal stored there -> a rule that does it
+	MaybeNil  map[string]string            // "Kind.Slot" (vertex slot) -> a rule that embeds a node of that kind whose slot is not known to be filled
+	AnyEmbeds int                          // embeddings of nodes whose kind is unknown to the abstract interpreter (no nil information)
 }
 
 func (g *gramCtx) obName(gp *gramParser, rule *yRule, class, what string) string {
@@ -661,7 +663,7 @@ type gramWant struct {
 }
 
 func (g *gramCtx) checkGrammar(c *CheckCtx, gp *gramParser, want gramWant) *gramResult {
-	res := &gramResult{Name: gp.Name, PairSigs: map[string][]string{}, SlotTerms: map[string]map[string]string{}}
+	res := &gramResult{Name: gp.Name, PairSigs: map[string][]string{}, SlotTerms: map[string]map[string]string{}, MaybeNil: map[string]string{}}
 	for _, p := range gp.Problems {
 		c.addOb("internal/"+gp.Name+"/table/grammar-file-matches-generated-parser: "+p, "table", "", false, p)
 	}
@@ -790,6 +792,79 @@ func (g *gramCtx) checkGrammar(c *CheckCtx, gp *gramParser, want gramWant) *gram
 					}
 					if _, seen := res.SlotTerms[k][term]; !seen {
 						res.SlotTerms[k][term] = fmt.Sprintf("rule %d %s", rule.Num, rule.LHS)
+					}
+				}
+			}
+			// --- which vertex slots of which node kinds can be nil in a parsed tree (C17: the formatter must test them):
+			// whenever an action embeds a node into a vertex slot or a vertex list of an ast node, every vertex slot of the
+			// embedded node that is not known to be filled at that moment is recorded
+			noteAlt := func(a *ntAlt) {
+				if a == nil || a.Nil {
+					return
+				}
+				if a.Any || a.T == nil {
+					res.AnyEmbeds++
+					return
+				}
+				if a.T.Obj().Pkg() == nil || a.T.Obj().Pkg().Name() != "ast" {
+					return
+				}
+				st, ok := a.T.Underlying().(*types.Struct)
+				if !ok {
+					return
+				}
+				for i := 0; i < st.NumFields(); i++ {
+					f := st.Field(i)
+					if classifySlot(f.Type()) != "vertex" || a.NonNilF[f.Name()] {
+						continue
+					}
+					k := a.T.Obj().Name() + "." + f.Name()
+					if _, seen := res.MaybeNil[k]; !seen {
+						res.MaybeNil[k] = fmt.Sprintf("%s rule %d %s", gp.Name, rule.Num, rule.LHS)
+					}
+				}
+			}
+			var noteVal func(v gv)
+			noteVal = func(v gv) {
+				switch vv := v.(type) {
+				case gRef:
+					if vv.Obj != nil && (vv.Obj.Kind == "node" || vv.Obj.T == nil) && vv.Obj.Kind != "token" && vv.Obj.Kind != "pos" {
+						for _, a := range g.altOfObj(r, vv.Obj) {
+							noteAlt(a)
+						}
+					}
+				case *gList:
+					for _, e := range vv.Pre {
+						noteVal(e)
+					}
+					for _, e := range vv.App {
+						noteVal(e)
+					}
+					if !vv.Tok {
+						for _, a := range g.elemAltsOf(r, vv) {
+							noteAlt(a)
+						}
+					}
+				case gList:
+					noteVal(&vv)
+				}
+			}
+			for _, o := range r.objs {
+				if o.Kind != "node" || o.T == nil || o.T.Obj().Pkg() == nil || o.T.Obj().Pkg().Name() != "ast" {
+					continue
+				}
+				st, ok := o.T.Underlying().(*types.Struct)
+				if !ok {
+					continue
+				}
+				for i := 0; i < st.NumFields(); i++ {
+					f := st.Field(i)
+					cl := classifySlot(f.Type())
+					if cl != "vertex" && cl != "vertices" {
+						continue
+					}
+					if v, written := o.Fields[f.Name()]; written {
+						noteVal(v)
 					}
 				}
 			}
